@@ -185,6 +185,15 @@ func (p *Program) Func(rel, name string) *ssa.Function {
 		if !ok {
 			return nil
 		}
+		if nt, ok := tn.Type().(*types.Named); ok && nt.TypeParams().Len() > 0 {
+			// generic type: address the origin method directly
+			for i := 0; i < nt.NumMethods(); i++ {
+				if m := nt.Method(i); m.Name() == parts[1] {
+					fn = p.Prog.FuncValue(m)
+				}
+			}
+			goto anon
+		}
 		var recv types.Type = tn.Type()
 		if ptr {
 			recv = types.NewPointer(recv)
@@ -201,6 +210,7 @@ func (p *Program) Func(rel, name string) *ssa.Function {
 	} else {
 		fn = sp.Func(base)
 	}
+anon:
 	for _, a := range anon {
 		if fn == nil {
 			return nil
@@ -385,6 +395,15 @@ func (p *Program) ModuleFuncs(rels ...string) []*ssa.Function {
 			case *ssa.Function:
 				add(m)
 			case *ssa.Type:
+				if nt, ok := m.Type().(*types.Named); ok && nt.TypeParams().Len() > 0 {
+					// generic type: the origin methods (instantiations share their bodies' shape)
+					for i := 0; i < nt.NumMethods(); i++ {
+						if f := p.Prog.FuncValue(nt.Method(i)); f != nil {
+							add(f)
+						}
+					}
+					continue
+				}
 				for _, t := range []types.Type{m.Type(), types.NewPointer(m.Type())} {
 					ms := p.Prog.MethodSets.MethodSet(t)
 					for i := 0; i < ms.Len(); i++ {
